@@ -155,5 +155,32 @@ class IndCfg:
             "cv": val(self.count_value),
         }
 
+    def mg_index(self, names):
+        tf = (self.timeframe or "").upper()
+        return names.index(tf) + 1 if names and tf and tf in names else 1
+
+    FIELDS = ("kind", "p", "p2", "p3", "inp", "mult", "smoothing", "rv", "count_value",
+              "timeframe", "fill", "ctype", "mg", "extra")
+
+    def clone(self, **over):
+        kw = {f: getattr(self, f) for f in self.FIELDS}
+        kw["lifespan"] = self.lifespan
+        kw.update(over)
+        return IndCfg(**kw)
+
+    def to_json(self):
+        d = {f: getattr(self, f) for f in self.FIELDS}
+        d["lifespan"] = None if self.lifespan is None else self.lifespan.total_seconds()
+        return d
+
+    @staticmethod
+    def from_json(d):
+        from datetime import timedelta
+
+        d = dict(d)
+        if d.get("lifespan") is not None:
+            d["lifespan"] = timedelta(seconds=d["lifespan"])
+        return IndCfg(**d)
+
     def label(self):
         return f"{self.kind}({self.p},{self.p2},{self.p3},{self.inp},m={self.mult},rv={self.rv},tf={self.timeframe})"
